@@ -81,7 +81,7 @@ func layBase(p *an.Prog, v ssa.Value, depth int) (base string, off int, length i
 					if n := an.NamedOf(fa.X.Type()); n != nil {
 						tn = n.Obj().Name()
 					}
-					return "field:" + tn + "." + st.Field(fa.Field).Name(), 0, -1, true
+					return "field:" + tn + "." + an.FName(st, fa.Field), 0, -1, true
 				}
 			}
 		}
